@@ -600,6 +600,7 @@ structure VRec where
   cls : Nat
   ownerLabels : List Label
   canonRd : Bytes
+  target : Bytes   -- presentation target of a CNAME / DNAME record, empty otherwise
 deriving DecidableEq
 
 /-- what the standard library contributes for one (key, signature, RRset):
@@ -700,17 +701,46 @@ structure VMsg where
 def rrKey (r : VRec) : Bytes × Nat × Nat := (lower r.name, r.typ, r.cls)
 def sigKey (s : VSig) : Bytes × Nat × Nat := (lower s.name, s.typ, s.cls)
 
-/-- the records `VerifyRRSIG` has to see signed: the answer section, and the
-authority section without NS records and without records of other zones. -/
-def collected (z : Bytes) (m : VMsg) : List VRec :=
-  m.answer ++ m.ns.filter (fun r => r.typ != 2 && nameInZone (lower r.name) z)
+/-- labels of a presentation name: the text between unescaped dots (a dot is
+escaped by an odd run of backslashes before it), the root is no label. -/
+def splitAux : Bytes → Bytes → Nat → List Bytes
+  | [], cur, _ => if cur.isEmpty then [] else [cur.reverse]
+  | c :: t, cur, bs =>
+    if c == 46 && bs % 2 == 0 then cur.reverse :: splitAux t [] 0
+    else splitAux t (c :: cur) (if c == 92 then bs + 1 else 0)
 
-/-- `VerifyRRSIG` (`true` = `(true, nil)`); messages without DNAME synthesis.
-`oneSig set sig` is `verifyOneSig`. -/
+def splitPres (s : Bytes) : List Bytes := if s == [46] then [] else splitAux s [] 0
+
+/-- `isSynthesizedCNAME` (RFC 6672 §3.3): some DNAME `(owner, target)` is a
+proper ancestor of the CNAME owner and substituting its target for its owner
+gives the CNAME target. -/
+def isSynthCNAME (owner target : Bytes) (dnames : List (Bytes × Bytes)) : Bool :=
+  let ol := splitPres owner
+  dnames.any fun d =>
+    let dl := splitPres d.1
+    !dl.isEmpty && decide (dl.length < ol.length)
+      && (ol.drop (ol.length - dl.length)).map lower == dl.map lower
+      && equalFold (fqdn ((ol.take (ol.length - dl.length)).flatMap (fun l => l ++ [46]) ++ d.2)) (fqdn target)
+
+/-- the DNAME records of the signer zone, from both sections. -/
+def dnamesOf (z : Bytes) (m : VMsg) : List (Bytes × Bytes) :=
+  ((m.answer ++ m.ns).filter (fun r => r.typ == 39 && nameInZone (lower r.name) z)).map (fun r => (r.name, r.target))
+
+/-- a CNAME that needs no signature of its own: the synthesis of an in-zone DNAME of the message. -/
+def exempt (z : Bytes) (m : VMsg) (r : VRec) : Bool := r.typ == 5 && isSynthCNAME r.name r.target (dnamesOf z m)
+
+/-- the records `VerifyRRSIG` has to see signed: the answer section and the
+authority section without synthesised CNAMEs; from the authority section
+also without NS records and without records of other zones. -/
+def collected (z : Bytes) (m : VMsg) : List VRec :=
+  m.answer.filter (fun r => !exempt z m r)
+    ++ m.ns.filter (fun r => r.typ != 2 && !exempt z m r && nameInZone (lower r.name) z)
+
+/-- `VerifyRRSIG` (`true` = `(true, nil)`). `oneSig set sig` is `verifyOneSig`. -/
 def verifyRRSIG (oneSig : List VRec → VSig → Bool) (nKeys : Nat) (zone : Bytes) (m : VMsg) : Bool :=
   if nKeys = 0 then false else
   let z := lower (fqdn zone)
-  if m.answer.any (fun r => !nameInZone (lower r.name) z) then false else
+  if m.answer.any (fun r => !exempt z m r && !nameInZone (lower r.name) z) then false else
   let recs := collected z m
   if recs.isEmpty then true
   else if m.sigs.isEmpty then false
